@@ -1074,7 +1074,13 @@ fn c09_rate_x(max_items: u32, twin: bool) {
             e::fail(&format!("rate/{}/error-not-forwarded", key), || format!("output [{}]", model::show_events(&got)));
           }
         }
-        Tm::None => {}
+        Tm::None => {
+          // the source stays open and quiet: the periodic flush must have handed out every item by now (the
+          // drain above moved the clock several periods past the last item and ran the executor at each deadline)
+          if out_ids != src_ids {
+            e::fail(&format!("rate/{}/item-withheld", key), || format!("the source is quiet and several periods have passed, yet only [{}] of input [{}] was delivered", model::show_events(&got), script.show()));
+          }
+        }
       }
     }
     RateOp::SampleInterval(_) => match &script.term {
